@@ -49,6 +49,61 @@ def guarded(fn, timeout_s: float):
         signal.signal(signal.SIGALRM, old)
 
 
+def isolated(fn, timeout_s=600):
+    """Run fn() in a forked child and return its (picklable) result.  The parent of a check never executes
+    code of the system under test itself: a defect that pollutes process-wide state (class attributes,
+    module tables) would otherwise make the second execution in the same process behave differently from
+    the first, and minimisation and confirmation would stop reproducing."""
+    import pickle
+
+    r, w = os.pipe()
+    pid = os.fork()
+    if pid == 0:
+        code = 0
+        try:
+            os.close(r)
+            try:
+                payload = pickle.dumps(("ok", fn()))
+            except BaseException as e:  # noqa: BLE001
+                payload = pickle.dumps(("err", repr(e) + "\n" + traceback.format_exc()))
+            with os.fdopen(w, "wb") as f:
+                f.write(payload)
+        except BaseException:  # noqa: BLE001
+            code = 1
+        finally:
+            os._exit(code)
+    os.close(w)
+    data = b""
+    deadline = time.monotonic() + timeout_s
+    import select
+
+    with os.fdopen(r, "rb") as f:
+        while True:
+            left = deadline - time.monotonic()
+            if left <= 0:
+                try:
+                    os.kill(pid, signal.SIGKILL)
+                except OSError:
+                    pass
+                break
+            ready, _, _ = select.select([f], [], [], min(left, 5))
+            if ready:
+                chunk = os.read(f.fileno(), 1 << 20)
+                if not chunk:
+                    break
+                data += chunk
+    try:
+        os.waitpid(pid, 0)
+    except OSError:
+        pass
+    if not data:
+        raise RuntimeError("isolated execution produced no result (child died or timed out)")
+    kind, val = pickle.loads(data)
+    if kind == "err":
+        raise RuntimeError("isolated execution failed: " + val)
+    return val
+
+
 def execute_guarded(batch, trace, prop, hang_is_violation) -> Result:
     res, timed_out = guarded(lambda: batch.execute(trace, prop), batch.per_run_timeout_s)
     if timed_out:
@@ -222,10 +277,11 @@ def _minimise(cd, batch, trace, prop, kind):
 
     def still_fails(cand) -> bool:
         try:
-            r = execute_guarded(batch, cand, prop, cd.hang_is_violation)
+            vios = isolated(lambda: execute_guarded(batch, cand, prop, cd.hang_is_violation).violations,
+                            batch.per_run_timeout_s + 30)
         except Exception:
             return False
-        return any(v["kind"] == kind and v["property"] == prop for v in r.violations)
+        return any(v["kind"] == kind and v["property"] == prop for v in vios)
 
     try:
         small = batch.shrink(trace, prop, still_fails, budget)
@@ -237,7 +293,7 @@ def _minimise(cd, batch, trace, prop, kind):
     return small, budget.execs
 
 
-def _write_replay(prop, batch, root, index, seed, trace, res, minimised, shrink_execs):
+def _write_replay(prop, batch, root, index, seed, trace, res, minimised, shrink_execs, readable=None):
     os.makedirs(REPLAY_DIR, exist_ok=True)
     v = next((x for x in res.violations if x["property"] == prop), None)
     doc = {
@@ -253,7 +309,7 @@ def _write_replay(prop, batch, root, index, seed, trace, res, minimised, shrink_
         "minimised": minimised,
         "shrink_executions": shrink_execs,
         "digest": res.digest,
-        "readable": batch.describe(trace),
+        "readable": readable if readable is not None else batch.describe(trace),
     }
     path = os.path.join(REPLAY_DIR, f"{prop}-{batch.name}-{root}-{index}.json")
     with open(path, "w") as f:
@@ -402,7 +458,19 @@ def run_check(prop: str, tier: str) -> int:
         _, batch = _find_batch(prop, batch_name)
         trace = {k: v for k, v in trace.items() if k != "run_index"}
         small, execs = _minimise(cd, batch, trace, prop, kind)
-        res = execute_guarded(batch, small, prop, cd.hang_is_violation)
+
+        def _final(b=batch, t=small):
+            r = execute_guarded(b, t, prop, cd.hang_is_violation)
+            return r.violations, r.digest, b.describe(t)
+
+        try:
+            vios_f, digest_f, readable_f = isolated(_final, batch.per_run_timeout_s + 30)
+        except Exception as ex:  # noqa: BLE001
+            agg.errors.append(f"confirmation of violation {kind} of run {batch_name}/{index} failed: {ex!r}")
+            continue
+        res = Result()
+        res.violations = vios_f
+        res.digest = digest_f
         mine = [v for v in res.violations if v["property"] == prop and v["kind"] == kind]
         if not mine:
             agg.errors.append(
@@ -411,7 +479,7 @@ def run_check(prop: str, tier: str) -> int:
             continue
         res.violations = mine + [v for v in res.violations if v not in mine]
         entry = findings.match(prop, small, mine[0])
-        path = _write_replay(prop, batch, root, index, seed, small, res, small is not trace, execs)
+        path = _write_replay(prop, batch, root, index, seed, small, res, small is not trace, execs, readable_f)
         rc, out = _fresh_replay(path)
         if rc != 1:
             agg.errors.append(
@@ -432,7 +500,9 @@ def run_check(prop: str, tier: str) -> int:
 
     # ---- determinism resample (fresh interpreter, other PYTHONHASHSEED)
     resampled = equal = 0
-    if not agg.errors and os.environ.get("VERIF_NO_RESAMPLE") != "1":
+    # (skipped once a violation is confirmed: a defect may pollute process-wide state, which makes digests
+    # depend on what a worker ran before - the confirmed replay in a fresh interpreter is the evidence then)
+    if not agg.errors and exit_code == 0 and os.environ.get("VERIF_NO_RESAMPLE") != "1":
         resampled, equal, mism = _resample(prop, agg, root, 40 if tier == "quick" else 150)
         if mism:
             agg.errors.append("nondeterminism detected: " + "; ".join(mism[:5]))
